@@ -365,10 +365,10 @@ Proof.
   split; [apply run_states_lrun; constructor|].
   split; [vm_compute; reflexivity|]. split; [reflexivity|].
   split; [vm_compute; reflexivity|]. split; [reflexivity|]. split; [reflexivity|].
-  intros s Hs. exists ex_tr. split; [now left|].
+  intros s Hs. exists ex_tr. split; [left; reflexivity|].
   assert (F : Forall (fun s => get_cont (hp s) 0 = CBranch [("a"%string, 1%nat)] /\ get_cont (hp s) 1 = CLeaf 5)
                      (fst ex_run)) by (vm_compute; repeat constructor).
-  rewrite Forall_forall in F. destruct (F s Hs). now apply ex_rep.
+  rewrite Forall_forall in F. destruct (F s Hs) as [F0 F1]. apply ex_rep; assumption.
 Qed.
 
 Example ex_lts_walk :
